@@ -294,6 +294,10 @@ func (s *c09Session) feed(c *fw.Ctx, p []byte, r *fw.Rand) bool {
 		c.Evals(3)
 	}
 	inA := cp()
+	canary := func() bool { return false }
+	if len(s.history)%2 == 0 {
+		inA, canary = fw.Roomy(p, 24)
+	}
 	var outA []byte
 	var errA error
 	var metaA string
@@ -303,6 +307,10 @@ func (s *c09Session) feed(c *fw.Ctx, p []byte, r *fw.Rand) bool {
 	}
 	c.Evals(1)
 	c.Count("unmarshal_calls_judged", 1)
+	if canary() || !bytes.Equal(inA, p) {
+		c.Fail("C09/"+name+"/input-modified", "the depacketizer wrote into the caller's payload buffer (within len or into its spare capacity)", wit())
+		return false
+	}
 	oc := byte('e')
 	if errA == nil {
 		oc = 'k'
